@@ -100,6 +100,7 @@ func VerifC14() {
 				mOld++
 			}
 		}
+		lastOld := -1 // old position of the previous kept object of this class
 		for i := 0; i < nNew; i++ {
 			if kind[i] == k {
 				inNew++
@@ -108,6 +109,9 @@ func VerifC14() {
 				if rep[j] == k && rt.SameObject(nb[i], ob[j]) {
 					kept++
 					keptOld[j] = true
+					// duplicates of an unchanged rule keep their relative order (they are evaluated in list order, each with its own counters)
+					rt.AssertExcept(j > lastOld, "kept duplicates of an unchanged rule keep their relative order across the reload", "D9", region)
+					lastOld = j
 					rt.Assert(kind[i] == k, "an old controller is only reused for a rule identical to its own")
 				}
 			}
